@@ -27,8 +27,9 @@ TRUSTED = [
     "Lean 4.33 kernel; axioms audited ⊆ {propext, Classical.choice, Quot.sound}; Mathlib.Tactic.Ring (+ its imports) in Proof/C14.lean only",
     "numpy semantics of transpose / tensordot / @ / np.ix_ / trace / item assignment as restated in Model/C14.lean "
     "(validated every run: the real functions vs the model on Gaussian-integer tensors, bit-exact)",
-    "the translator translate/c14gen.py (Python ast): transpose axes, tensordot operands/axes, np.ix_ argument patterns, trace axes, "
-    "coefficients/signs, spin-index assignment patterns read from the source text",
+    "the translator translate/c14gen.py (Python ast) is ADVISORY only: it reads transpose axes, tensordot operands/axes, np.ix_ argument "
+    "patterns, trace axes, coefficients/signs, spin-index assignment patterns from the source text; a difference from Model.modelShape "
+    "triples the correspondence / oracle budgets and is recorded, it is not an obligation (equivalent refactorings raise no alarm)",
     "correspondence harness harness/c14.py and the line-protocol driver Driver/C14.lean (parsing/printing)",
     "oracle/slater.py (independent Fock-space ladder operators, Slater–Condon diagonal rule, Pauli matrices; self-tested every run): "
     "the DEFINITION of determinant energy / spectrum the physics statement is validated against",
